@@ -389,14 +389,27 @@ func RunParent(o ParentOpts) int {
 	// ---- confirm, classify, report ----
 	known := LoadKnown()
 	byKey := map[string]Failure{}
+	// further cases that failed with the same key: tried when the first one does not reproduce on its own (a failure
+	// may depend on what earlier cases of the same worker process left behind; a longer case carries its own history)
+	others := map[string][]Failure{}
 	var keys []string
 	for _, f := range merged.Failures {
 		if _, ok := byKey[f.Key]; !ok {
 			byKey[f.Key] = f
 			keys = append(keys, f.Key)
+		} else if f.CaseID != byKey[f.Key].CaseID {
+			others[f.Key] = append(others[f.Key], f)
+		}
+	}
+	for k := range others {
+		o := others[k]
+		sort.SliceStable(o, func(i, j int) bool { return len(o[i].CaseID) > len(o[j].CaseID) })
+		if len(o) > 4 {
+			others[k] = o[:4]
 		}
 	}
 	sort.Strings(keys)
+	var byKeyMu sync.Mutex
 	type verdict struct {
 		key        string
 		path       string
@@ -453,6 +466,27 @@ func RunParent(o ParentOpts) int {
 			}
 			rw.Wait()
 			verdicts[i].reproduced = ok.Load()
+			if !verdicts[i].reproduced {
+				for _, alt := range others[f.Key] {
+					rf := ReplayFile{Property: o.CheckID, Key: alt.Key, Desc: alt.Desc, Group: alt.Group, CaseID: alt.CaseID, Type: alt.Type, Data: alt.Data}
+					b, _ := json.MarshalIndent(rf, "", " ")
+					sum := sha1.Sum([]byte(alt.Key + "\x00" + alt.CaseID))
+					apath := filepath.Join(repDir, hex.EncodeToString(sum[:6])+".json")
+					os.WriteFile(apath, b, 0o644)
+					all := true
+					for n := 0; n < 5 && all; n++ {
+						all = replayReproduces(o.Exe, apath, alt.Key)
+					}
+					if all {
+						byKeyMu.Lock()
+						byKey[f.Key] = alt
+						byKeyMu.Unlock()
+						verdicts[i].path = apath
+						verdicts[i].reproduced = true
+						break
+					}
+				}
+			}
 		}(i, f, path)
 	}
 	wg.Wait()
